@@ -45,10 +45,10 @@ def main():
         if only and nid not in only:
             continue
         jobs.append((nid, os.path.join(os.path.dirname(meta), "patch.diff"), pids))
-    with ProcessPoolExecutor(max_workers=16) as ex:
-        results = list(ex.map(one, jobs))
-    n_alarm = n_err = 0
-    for nid, res, err in results:
+    ex = ProcessPoolExecutor(max_workers=16)
+    n_alarm = n_err = n_all = 0
+    for nid, res, err in ex.map(one, jobs):
+        n_all += 1
         mp = os.path.join(VERIF, "neutral", nid, "meta.json")
         m = json.load(open(mp))
         v = m.setdefault("verification", {})
@@ -64,12 +64,12 @@ def main():
         json.dump(m, open(mp, "w"), indent=1)
         n_alarm += bool(alarms)
         n_err += bool(errs) and not alarms
-        print(f"{nid:8s} alarms={alarms} analysis_errors={errs}" + (f" undecided(documented)={documented}" if documented else "") + ("" if (alarms or errs) else "  silent"))
+        print(f"{nid:8s} alarms={alarms} analysis_errors={errs}" + (f" undecided(documented)={documented}" if documented else "") + ("" if (alarms or errs) else "  silent"), flush=True)
         if verbose:
             for p, (rc, l) in res.items():
                 for x in l[:2]:
                     print("      ", p, x[:230])
-    print(f"refactorings: {len(results)}  with false alarm: {n_alarm}  only analysis errors: {n_err}  silent: {len(results) - n_alarm - n_err}")
+    print(f"refactorings: {n_all}  with false alarm: {n_alarm}  only analysis errors: {n_err}  silent: {n_all - n_alarm - n_err}")
 
 
 if __name__ == "__main__":
